@@ -111,15 +111,49 @@ def sec_digest(sec, chart):
     return observe.digest(o["global"])
 
 
-def record(r, cid, sec, tokens, copy=False, given=None, indent="  "):
+def parse_logged_direct(sec, body, indent, how):
+    """The section handed to its section-level public entry point (as the given kind of iterable), with the log capture of
+    parse_logged.  There a line that IS a brace is an ordinary (unparsable) body line: braces are structure in files only."""
+    import warnings
+    from chartgen import LogCapture, parse_sections
+    h = LogCapture()
+    lg = logging.getLogger("chartparse")
+    old = lg.level
+    lg.addHandler(h)
+    lg.setLevel(logging.DEBUG)
+    wctx = warnings.catch_warnings(record=True)
+    wlist = wctx.__enter__()
+    warnings.simplefilter("always")
+    try:
+        secs = [("Song", ["Resolution = 192"]), ("SyncTrack", ["0 = TS 4", "0 = B 120000"] + (list(body) if sec == "sync" else [])),
+                ("Events", list(body) if sec == "events" else []), ("ExpertSingle", list(body) if sec == "track" else [])]
+        try:
+            # (only the section under test carries the indentation under test; the fixed lines of the others are written plainly)
+            fixed = {"Song": 1, "SyncTrack": 2 if sec == "sync" else 0}
+            secs = [(t, [("  " + ln if (t != {"sync": "SyncTrack", "events": "Events", "track": "ExpertSingle"}[sec] or k < fixed.get(t, 0)) else indent + ln)
+                         for k, ln in enumerate(b)]) for t, b in secs]
+            return "chart", parse_sections(secs, how, indent=""), h.records + [("chartparse.warnings", logging.WARNING, str(w.message)) for w in wlist]
+        except Exception as e:  # noqa: BLE001
+            return "raise", e, h.records
+    finally:
+        wctx.__exit__(None, None, None)
+        lg.removeHandler(h)
+        lg.setLevel(old)
+
+
+def record(r, cid, sec, tokens, copy=False, given=None, indent="  ", direct=None):
     body, ticks = given if given is not None else make_section(r, sec, tokens, copy=copy)
-    if indent != "  ":
+    if indent != "  " and direct is None:
         # in column 0 a line that IS a brace is structural, and a brace followed by blanks is an ordinary unparsable line
         body = [("x" + ln if (indent + ln) in ("{", "}") else ln) for ln in body]
     text = assemble(sec, body, indent)
     clean_body = [ln for ln, tok in zip(body, tokens) if tok != "junk"]
-    kind, val, logs = parse_logged(text)
-    ck, cval, _ = parse_logged(assemble(sec, clean_body, indent))
+    if direct is not None:
+        kind, val, logs = parse_logged_direct(sec, body, indent, direct)
+        ck, cval, _ = parse_logged_direct(sec, clean_body, indent, direct)
+    else:
+        kind, val, logs = parse_logged(text)
+        ck, cval, _ = parse_logged(assemble(sec, clean_body, indent))
     rec = {"id": cid, "props": ["C14"], "kind": "dispatch", "sec": sec, "lines": list(tokens), "raised": "", "got": [[], [], []],
            "warn": [], "bogus": 0, "clean": "", "dirty": "", "body": body, "ticks": ticks, "indent": indent}
     if kind != "chart" or ck != "chart":
@@ -132,7 +166,8 @@ def record(r, cid, sec, tokens, copy=False, given=None, indent="  "):
     # name no body line at all (e.g. a summary) are ignored; a second report for the same unparsable line counts
     # as index 0 (never a valid index); a report naming a CLAIMED line is counted in `bogus`.
     junk_idx = [k for k, tok in enumerate(tokens, start=1) if tok == "junk"]
-    reports = [msg for name, level, msg in logs if level >= logging.WARNING and name.startswith("chartparse")]
+    # (a line handed over with its terminator is named with it: the terminator is not part of what the line says)
+    reports = [msg.replace("\n", "").replace("\\n", "") for name, level, msg in logs if level >= logging.WARNING and name.startswith("chartparse")]
     valid_texts = {'"' + indent + ln + '"' for ln, tok in zip(body, tokens) if tok != "junk"}
     junk_texts = {'"' + indent + body[k - 1] + '"' for k in junk_idx}
     j = 0
@@ -198,6 +233,28 @@ def run(ctx):
         texts[rec["id"]] = text
         ctx.evaluations += 1
         ctx.distinct([sec, toks])
+    # the section-level entry points (every kind of iterable), where a line that IS a brace - or a header - is just another
+    # unparsable body line
+    from chartgen import ITERABLE_KINDS
+    for j in range(ctx.pick(120, 2400)):
+        n = r.choice([2, 3, 5, 9])
+        toks = []
+        for _ in range(n):
+            if r.random() < 0.5:
+                toks.append("junk")
+            toks.append(r.choice(["k1", "k1", "k2", "k3"]))
+        toks.append("junk")
+        sec = ["track", "sync", "events"][j % 3]
+        body, ticks = make_section(r, sec, toks)
+        ind = r.choice(["", "", "  ", "\t"])
+        for k_, tok in enumerate(toks):
+            if tok == "junk" and r.random() < 0.6:
+                body[k_] = r.choice(["}", "{", "}", "[Song]", "[ExpertSingle]", "{}", "} "]) if ind == "" else r.choice(["}", "{", "garbage"])
+        rec, text = record(r, f"dir{j}", sec, toks, given=(body, ticks), indent=ind, direct=ITERABLE_KINDS[j % len(ITERABLE_KINDS)])
+        rec["direct"] = ITERABLE_KINDS[j % len(ITERABLE_KINDS)]
+        recs.append(rec)
+        texts[rec["id"]] = text
+        ctx.evaluations += 1
     # verbatim repeated lines: directly after each other, with one unparsable line in between, with another kind in between
     j = 0
     for sec in ("track", "sync", "events"):
@@ -249,6 +306,6 @@ def replay(ctx, obj):
     rec = obj["record"]
     r = rng("C14-replay")
     given = (rec["body"], rec["ticks"]) if "body" in rec else None
-    rec2, text = record(r, rec["id"], rec["sec"], rec["lines"], given=given, indent=rec.get("indent", "  "))
+    rec2, text = record(r, rec["id"], rec["sec"], rec["lines"], given=given, indent=rec.get("indent", "  "), direct=rec.get("direct"))
     for rid, p, clause in ctx.validate([rec2]):
         ctx.violation(clause, {"kind": "dispatch", "record": rec2, "text": text})
